@@ -297,9 +297,10 @@ class QueueScan(FiniteTask):
 
 def tasks(tier):
     from contracts import recvpath
-    from contracts.dul_reactor import DulReactorTask
+    from contracts.dul_reactor import DulReactorTask, TransportEventTask
     from contracts.C07 import RunReactorTask
-    return [ConnectTask(), AcceptedSocketTask(), GetMsgTask(), ReceivePduTask(), BlockingCallScan(), QueueScan(), DulReactorTask(), RunReactorTask()]
+    return [ConnectTask(), AcceptedSocketTask(), GetMsgTask(), ReceivePduTask(), BlockingCallScan(), QueueScan(), DulReactorTask(), RunReactorTask(),
+            TransportEventTask()]
 
 
 def replay(rec):
